@@ -84,6 +84,9 @@ type runSpec struct {
 	CapA uint64 `json:"window_bytes_pass_a"` // 0 = what the code asks for (one window)
 	CapB uint64 `json:"window_bytes_pass_b"`
 	Intr *intr  `json:"interruption,omitempty"` // nil: run until Plot() returns
+	// FailWrite > 0: the run's FailWrite-th pwrite64 of every thread fails with EIO (strace fault injection): a
+	// transient write error of the disk under the plot files
+	FailWrite int `json:"fail_nth_pwrite,omitempty"`
 }
 
 type caseSpec struct {
@@ -94,7 +97,12 @@ type caseSpec struct {
 	PrivHex string    `json:"priv_scalar_hex"`
 	Runs    []runSpec `json:"runs"`
 	Strace  bool      `json:"strace"`
-	Legacy  bool      `json:"legacy"` // after the interruption the pass-A header is rewritten to what builds before the fix recorded (window start + 1)
+	// NearEnd > 0: after run 0 (killed right before the pass-A file is removed, table complete) the table is cut back
+	// to the state a plot with one-pair windows leaves when it is interrupted NearEnd pairs before the end of pass B:
+	// checkpoint = half-NearEnd, nothing written behind it. Reaching that state by plotting costs tens of thousands of
+	// one-pair windows; what follows (resume with one-pair windows, stop a pair or two later) runs for real.
+	NearEnd int  `json:"near_end_pairs,omitempty"`
+	Legacy  bool `json:"legacy"` // after the interruption the pass-A header is rewritten to what builds before the fix recorded (window start + 1)
 }
 
 func simWindowsA(vol uint64, rs int, cap uint64) int {
@@ -389,6 +397,51 @@ func buildCases(seed int64, thorough bool) []caseSpec {
 			in = &intr{Kind: kind, Point: "plot.A.checkpointed", Occ: 1 + r.Intn(nA)}
 		}
 		add(caseSpec{Family: "legacy", Legacy: true, BL: bl, Key: r.Intn(nKeys), Runs: []runSpec{rsOf(before, in), rsOf(pickOther(r, cfgs, &before, false), nil)}})
+	}
+	// family "write-fault": one write to the plot files fails with EIO (transient); whatever the run then reports, the
+	// space must not come out as plotted with a table that differs from the reference, and a later run without faults
+	// completes it
+	nWF := 6
+	if thorough {
+		nWF = 60
+	}
+	for i := 0; i < nWF; i++ {
+		r := root.Derive("write-fault", i)
+		bl := bls[i%len(bls)]
+		cfgs := windowCfgs(bl, r)
+		c := pickOther(r, cfgs, nil, true)
+		nA, nB := windowsOf(bl, c)
+		// every window costs at least a data write and a checkpoint write
+		// strace counts per thread and the plot goroutine wanders between threads: only small ordinals are reached reliably
+		_ = nB
+		lim := 2 * nA
+		if lim > 8 {
+			lim = 8
+		}
+		nth := 3 + r.Intn(lim) // (the first two writes create the two files)
+		fr := rsOf(c, nil)
+		fr.FailWrite = nth
+		add(caseSpec{Family: "write-fault", BL: bl, Key: r.Intn(nKeys), Runs: []runSpec{fr, rsOf(pickOther(r, cfgs, &c, false), nil)}})
+	}
+	// family "near-end": a graceful stop in the last pairs of pass B of a table big enough that what is missing is
+	// less than 0.005 % of the records: whatever the space reports then (progress figure, plotted, ready), the table is
+	// not complete
+	nNE := 4
+	neBLs := []int{16}
+	if thorough {
+		nNE, neBLs = 36, []int{16, 15, 17}
+	}
+	for i := 0; i < nNE; i++ {
+		r := root.Derive("near-end", i)
+		bl := neBLs[i%len(neBLs)]
+		rs := pocutil.RecordSize(bl)
+		cfgs := windowCfgs(bl, r)
+		k := 2 + (i/len(neBLs))%3 // 2..4 pairs before the end
+		j := 1 + r.Intn(k-1)      // stop after j one-pair windows: k-j >= 1 pairs stay missing
+		add(caseSpec{Family: "near-end", NearEnd: k, BL: bl, Key: r.Intn(nKeys), Runs: []runSpec{
+			rsOf(cfgs[0], &intr{Kind: "kill", Point: "plot.beforeRemoveA", Occ: 1}),
+			{Cfg: "one-pair-windows", CapA: 0, CapB: uint64(4 * rs), Intr: &intr{Kind: "stop", Point: "plot.B.checkpointed", Occ: j}},
+			rsOf(pickOther(r, cfgs, nil, true), nil)}})
 	}
 	// family "strace": whole plots under a syscall trace (O4); 1 in 5 is stopped once and resumed (two traces)
 	nTr := 5
@@ -785,6 +838,7 @@ func execCase(cx *ctx, cs *caseSpec) {
 	oddHist, afterSpin, ckOdd := false, false, false
 	o1Fired := false
 	legacyInjected := false
+	writeFaulted := false // a write error was injected in this case: from then on only "never falsely complete" and "progress never ahead of written data" are judged (the statement promises resumption after stops and process deaths, not after failed writes)
 	interruptions, resumes := 0, 0
 	completed := false
 	var straceCmds []string
@@ -841,6 +895,14 @@ func execCase(cx *ctx, cs *caseSpec) {
 			traceFile = filepath.Join(dir, fmt.Sprintf("trace%d.txt", k))
 			argv = append(append([]string{cx.strace}, append(straceArgs, "-o", traceFile)...), argv...)
 			straceCmds = append(straceCmds, strings.Join(argv, " "))
+		}
+		if r.FailWrite > 0 {
+			if cx.strace == "" {
+				run.Drop("write-fault: strace not available")
+				run.Case(cs.hash(), false)
+				return
+			}
+			argv = append([]string{cx.strace, "-f", "-o", "/dev/null", "-e", "trace=pwrite64", "-e", fmt.Sprintf("inject=pwrite64:error=EIO:when=%d", r.FailWrite)}, argv...)
 		}
 		async := r.Intr != nil && r.Intr.Kind == "kill-async"
 		var delay time.Duration
@@ -1018,18 +1080,59 @@ func execCase(cx *ctx, cs *caseSpec) {
 				run.Case(cs.hash(), false)
 				return
 			}
+			if writeFaulted {
+				run.Count("observed:after_injected_write_error:space_does_not_reopen(not judged)", 1)
+				break
+			}
 			violate("reopen-fails-after-interruption", "-", nil, map[string]interface{}{"open_err": msg, "by": "NewMassDBV1 in the resuming process"})
 		case "plot-error":
+			if r.FailWrite > 0 {
+				// the injected write error surfaced as the plot's error: the expected outcome; the reopen below judges
+				// what the files say now, the next run resumes
+				run.Count("write_faults_reported_by_plot", 1)
+				interruptions++
+				lastKind, lastPoint = "write-error", "-"
+				break
+			}
 			if k == 0 && interruptions == 0 && r.Intr == nil {
 				run.Drop("first-plot-returned-error")
 				run.Case(cs.hash(), false)
 				return
+			}
+			if writeFaulted {
+				run.Count("observed:after_injected_write_error:resume_fails(not judged)", 1)
+				break
 			}
 			violate("resume-fails-with-error", "-", nil, map[string]interface{}{"plot_err": ret.Err})
 		case "returned-early":
 			violate("plot-returns-without-completing", "-", nil, map[string]interface{}{"note": "Plot() returned nil, no stop was issued, the end of the plot was not reached"})
 		case "crashed":
 			violate("plotting-process-died", "-", nil, map[string]interface{}{"exit_code": res.ExitCode, "signal": res.Signal, "fatal": vh.ScanFatal(outFile, 25)})
+		}
+
+		// near-end family: cut the complete table back to "interrupted NearEnd pairs before the end of pass B"
+		if cs.NearEnd > 0 && k == 0 {
+			_, pathB := mapPaths(plotDir, int64(cs.Key), pub, bl)
+			cut := int64(half) - int64(cs.NearEnd)
+			ok := false
+			if outcome == "killed" && readCkPath(pathB) == int64(half) {
+				if f, err := os.OpenFile(pathB, os.O_WRONLY, 0); err == nil {
+					var b8 [8]byte
+					binary.LittleEndian.PutUint64(b8[:], uint64(cut))
+					_, e1 := f.WriteAt(make([]byte, cs.NearEnd*rs*4), int64(massdb_v1.PosProofData)+cut*int64(rs)*4)
+					_, e2 := f.WriteAt(b8[:], posCheckpoint)
+					e3 := f.Sync()
+					f.Close()
+					ok = e1 == nil && e2 == nil && e3 == nil
+				}
+			}
+			if !ok {
+				run.Drop("near-end: the first run did not leave a complete table with its pass-A file")
+				run.Case(cs.hash(), false)
+				return
+			}
+			step["table_cut_back_to_pairs_before_end"] = cs.NearEnd
+			run.Count("near_end_tables_cut_back", 1)
 		}
 
 		// legacy family: make the header look as a build before the fix left it (same data on disk, checkpoint = window start + 1)
@@ -1095,7 +1198,14 @@ func execCase(cx *ctx, cs *caseSpec) {
 				run.Count("checkpoint_went_backwards_between_reopens", 1)
 			}
 		}
+		if r.FailWrite > 0 {
+			writeFaulted = true
+		}
 		for _, p := range probs {
+			if writeFaulted && p.Kind != "reports-plotted-with-incomplete-table" && p.Kind != "checkpoint-ahead-of-written-data" && p.Kind != "resumed-table-differs" && p.Kind != "plotted-table-differs" {
+				run.Count("observed:after_injected_write_error:"+p.Kind+"(not judged)", 1)
+				continue
+			}
 			if p.Kind == "resumed-table-differs" && o1Fired && !ranRemoval {
 				continue // the same table was already reported when it was first seen "plotted"
 			}
